@@ -216,41 +216,50 @@ def measure_ladder(rebound, sysd, cfg, ref_state, T, n_inner, maxpts=4, nmax=9):
     return pts
 
 
+SLOPE_MARGIN = {"eos": 1.0}        # default 0.5 (DESIGN); EOS: inner schemes used non-perturbatively wobble more (measured, notes/C01.md)
+TAU_ASYM = 0.41                     # slopes are only read off for steps <= 0.4/(inner mean motion)
+
+
 def judge(cfg, sysd, pts, n_inner):
-    """oracle of DESIGN C01: returns (verdict, detail).  verdict in ok / no-window / too-large / low-order"""
-    win = [(dt, e) for dt, e in pts if ERR_LO <= e <= ERR_HI]
+    """oracle of DESIGN C01 "Calibration".  returns (verdict, detail, error/unscaled envelope).
+    too-large : an error above 1e-10 lies outside the envelope K T (eps dt^p1 + eps^2 dt^p2 + ...), K = 100
+    low-order : at least three errors in [1e-10, 1e-2] at asymptotic steps, and both the slope over that whole window and the
+                slope of its last interval are more than the margin below the lowest advertised exponent
+    no-window : fewer than three such errors (nothing to read a slope from); ok otherwise"""
     detail = {"points": [(float("%.4g" % dt), float("%.3g" % e)) for dt, e in pts]}
     worst_ratio = 0.0
     for dt, e in pts:
         env, parts = advertised_envelope(cfg, sysd, dt, n_inner)
         if e > ERR_LO and env < ERR_HI * 10:
             worst_ratio = max(worst_ratio, e / max(env, 1e-300) * K_ENV)    # error / (envelope without the factor K)
-        if e > ERR_LO and e > env and env < ERR_HI:
-            detail["envelope"] = env
-            detail["dt"] = dt
-            detail["error"] = e
+        if (e > ERR_LO and e > env and env < ERR_HI) or not e == e or e == float("inf"):
+            detail.update(envelope=env, dt=dt, error=e)
             return "too-large", detail, worst_ratio
-    slopes = []
-    for (d1, e1), (d2, e2) in zip(win, win[1:]):
-        sl = math.log(e1 / e2) / math.log(d1 / d2)
-        _, p1 = advertised_envelope(cfg, sysd, d1, n_inner)
-        _, p2 = advertised_envelope(cfg, sysd, d2, n_inner)
-        # the exponent that dominates the envelope on this interval (by a factor 10 at both ends), if any
-        dom = None
-        for j, t in enumerate(cfg["terms"]):
-            if all(p[j] >= 10 * max([x for i, x in enumerate(p) if i != j] + [0.0]) for p in (p1, p2)):
-                dom = t[1]
-        slopes.append((sl, dom, d1, d2, e1, e2))
-    detail["slopes"] = [(float("%.2f" % s[0]), s[1]) for s in slopes]
-    lowest = min(t[1] for t in cfg["terms"])
-    for sl, dom, d1, d2, e1, e2 in slopes:
-        need = (dom if dom is not None else lowest) - 0.5
-        if sl < need:
-            detail.update(dt=(d1, d2), error=(e1, e2), slope=sl, required=need)
-            return "low-order", detail, worst_ratio
-    if len(win) < 2:
+    win = [(dt, e) for dt, e in pts if ERR_LO <= e <= ERR_HI and dt * n_inner <= TAU_ASYM]
+    if len(win) < 3:
         return "no-window", detail, worst_ratio
+    overall = math.log(win[0][1] / win[-1][1]) / math.log(win[0][0] / win[-1][0])
+    last = math.log(win[-2][1] / win[-1][1]) / math.log(win[-2][0] / win[-1][0])
+    lowest = min(t[1] for t in cfg["terms"])
+    need = lowest - SLOPE_MARGIN.get(cfg.get("fam"), 0.5)
+    detail.update(slope_overall=float("%.2f" % overall), slope_last=float("%.2f" % last), lowest_advertised=lowest)
+    if max(overall, last) < need:
+        detail.update(required=need, dt=(win[0][0], win[-1][0]), error=(win[0][1], win[-1][1]))
+        return "low-order", detail, worst_ratio
     return "ok", detail, worst_ratio
+
+
+def finding_key(cfg, sysd, sg, verdict):
+    """stable key of the input class a failing case belongs to"""
+    nm = cfg["name"]
+    if cfg["fam"] == "trace" and sg < 0:
+        return "F10:trace-negative-dt"
+    if sysd["tp_type"] == 1 and ((cfg["fam"] == "whfast" and ("/modifiedkick/" in nm or "/lazy/" in nm)) or
+                                 (cfg["fam"] == "saba" and int(nm.split("/")[1], 16) >= 0x100)):
+        return "C01:jacobi-gravity-testparticle-type1"
+    if sysd["tp_type"] == 1 and cfg["fam"] == "eos" and "pmlf" in nm:
+        return "C01:jerk-testparticle-pairs"
+    return "%s:%s:%s" % (cfg["fam"], verdict, nm)
 
 
 # ----------------------------------------------------------------------------------------------- the check
@@ -420,23 +429,15 @@ def search(c, rebound, clib, d, syss, refs, focus):
     c.cov["lattice_size"] = len(L)
     # system suitability: N = 2 is solved exactly by Kepler-based splittings (nothing to measure), keep it for the others
     bysys = {sd["name"]: sd for sd in syss}
-    budget_cfg = len(L) if c.thorough else 140
     boost = 1
     if focus:
         L = [x for x in L if x["fam"] in focus] or L
         boost = 10
     order = list(range(len(L)))
     c.rng.shuffle(order)
-    if not c.thorough and not focus:
-        # stratified sample: every family represented
-        fams = {}
-        for i in order:
-            fams.setdefault(L[i]["fam"], []).append(i)
-        quota = {"leapfrog": 1, "whfast": 52, "saba": 24, "eos": 50, "janus": 5, "mercurius": 1, "trace": 1}
-        order = [i for f, idx in fams.items() for i in idx[:quota.get(f, 5)]]
     verdicts, ratios, hist = {}, {}, {}
     t0 = time.time()
-    tlimit = (1500 if c.thorough else 95) * (1 if not focus else 1)
+    tlimit = 1500 if (c.thorough or focus) else 100
     nrun = 0
     for i in order:
         cfg = L[i]
@@ -444,7 +445,7 @@ def search(c, rebound, clib, d, syss, refs, focus):
         if fam in ("whfast", "saba", "mercurius", "trace"):
             names = ["two_planets", "heavy3", "tp0", "tp1", "nine"]
         elif fam == "eos":
-            names = ["two_planets", "heavy3", "tp0", "kepler2"]
+            names = ["two_planets", "heavy3", "tp0", "tp1", "kepler2"]
         else:
             names = ["kepler2", "two_planets", "tp0"]
         if fam == "whfast" and cfg["coord"] == "whds":
@@ -453,10 +454,10 @@ def search(c, rebound, clib, d, syss, refs, focus):
             use = names
             dirs = (1, -1)
         else:
-            use = [names[c.rng.randint(0, len(names) - 1)]]
+            # quick: every member of the lattice on two of its systems (one of them with test particles), one direction each
+            use = [names[c.rng.randint(0, len(names) - 1)], c.rng.choice([n for n in names if n.startswith("tp")])]
+            use = list(dict.fromkeys(use))
             dirs = (c.rng.choice([1, -1]),)
-            if fam in ("saba", "whfast") and max(t[1] for t in cfg["terms"]) >= 6 and c.rng.chance(0.7):
-                use = ["heavy3"]
         for nm in use:
             sd = bysys[nm]
             n_inner = math.sqrt(sd["G"] * 1.0 / 1.0)
@@ -486,9 +487,7 @@ def search(c, rebound, clib, d, syss, refs, focus):
                     what = "%s on system %s (T=%g): %s" % (cfg["name"], nm, T, {"too-large": "error outside the advertised envelope",
                                                                                 "low-order": "observed order below the advertised one",
                                                                                 "exception": "exception"}[v])
-                    vkey = "%s:%s" % (cfg["fam"], v)
-                    if fam == "trace" and sg < 0:
-                        vkey = "F10:trace-negative-dt"
+                    vkey = finding_key(cfg, sd, sg, v)
                     c.violation(vkey, what, dict(config=cfg["name"], system=sd["name"], bodies=sd["bodies"], G=sd["G"], T=T,
                                                  N_active=sd["active"], testparticle_type=sd["tp_type"], detail=det,
                                                  how="rv/c01.py: make_sim + cfg.set; steps(n) with dt=T/n; compare positions with ref/C01_reference.py"))
@@ -542,16 +541,13 @@ def extra_checks(c, rebound, clib, d, syss, ref):
         for sg in (1, -1):
             T = sg * sd["T"]
             prev = None
-            for mode in ("individual", "global", "prs23"):
+            for mode in (0, 1, 2, 3):      # individual, global, PRS23 (default), Aarseth85
                 errs = []
-                for eps in (1e-5, 1e-7, 1e-9):
+                for eps in (1e-1, 1e-5, 1e-9):
                     sim = make_sim(rebound, sd)
                     sim.integrator = "ias15"
                     sim.ri_ias15.epsilon = eps
-                    try:
-                        sim.ri_ias15.adaptive_mode = mode
-                    except Exception:
-                        continue
+                    sim.ri_ias15.adaptive_mode = mode
                     sim.dt = math.copysign(0.05, T)
                     sim.integrate(T)
                     e = pos_err(state_of(sim), ref[nm]["states"][repr(T)], N)
@@ -700,7 +696,7 @@ for sg in (1, -1):
 print(json.dumps(out))
 """
     f10 = {}
-    for label, peri in (("default_peri_mode", "None"), ("PARTIAL_BS", "1")):
+    for label, peri in (("FULL_BS(default)", "None"), ("PARTIAL_BS", "0"), ("FULL_IAS15", "2")):
         p = subprocess.run([sys.executable, "-c", code % (d, peri)], capture_output=True, text=True, timeout=300)
         if p.returncode != 0:
             f10[label] = "crash rc=%d" % p.returncode
